@@ -24,7 +24,7 @@ from floogen.model.connection import ConnectionDesc
 from floogen.model.link import NarrowWideLink, NarrowWideVCLink, AxiLink
 from floogen.model.network_interface import NarrowWideAxiNI, AxiNI
 from floogen.model.protocol import AXI4, AXI4Bus
-from floogen.utils import clog2, sv_enum_typedef, sv_param_decl
+from floogen.utils import clog2, snake_to_camel, sv_enum_typedef, sv_param_decl
 import floogen.templates
 
 
@@ -575,6 +575,15 @@ class Network(BaseModel):  # pylint: disable=too-many-public-methods
                 "No endpoints found in the network. Use the `only_pkg` flag for package generation."
             )
         self.routing.num_id_bits = clog2(len(self.graph.get_ni_nodes()))
+        # The endpoints are enumerated by the CamelCase form of their names
+        enum_names = {"NumEndpoints": "the number of endpoints"}
+        for ni in self.graph.get_ni_nodes():
+            enum_name = snake_to_camel(ni.render_enum_name())
+            if enum_name in enum_names:
+                raise ValueError(
+                    f"Endpoint {ni.render_enum_name()} and {enum_names[enum_name]} "
+                    f"are both called {enum_name} in the generated code")
+            enum_names[enum_name] = ni.render_enum_name()
         match self.routing.route_algo:
             case RouteAlgo.XY:
                 for info, value in self.gen_xy_routing_info().items():
@@ -594,7 +603,14 @@ class Network(BaseModel):  # pylint: disable=too-many-public-methods
 
     def gen_router_tables(self):
         """Generate the routing table for the network."""
+        map_names = {}
         for rt in self.graph.get_rt_nodes():
+            map_name = snake_to_camel(rt.name + "_map")
+            if map_name in map_names:
+                raise ValueError(
+                    f"Routers {rt.name} and {map_names[map_name]} "
+                    f"are both called {map_name} in the generated code")
+            map_names[map_name] = rt.name
             routing_table = []
             # Responses are routed back to the requesting manager by its ID,
             # hence every network interface needs an entry, not only subordinates
@@ -681,7 +697,8 @@ class Network(BaseModel):  # pylint: disable=too-many-public-methods
                 elif len(ni.addr_range) > 1:
                     rule_name += f"_{i}"
                 rule_name += "_sam_idx"
-                if any(rule.desc == rule_name for rule in addr_table):
+                if any(snake_to_camel(rule.desc) == snake_to_camel(rule_name)
+                       for rule in addr_table):
                     raise ValueError(
                         f"Address map entry name {rule_name} is not unique: "
                         "address ranges of an endpoint need distinct `desc` labels")
